@@ -228,8 +228,12 @@ def rule_mask_algebra(ctx, rid):
             if len(Ts) == 1 and len(PHs) == 1:
                 want = alg.poly(('bin', '+', ('bin', '*', ('bin', '*', TWO_PI, S('z')), Ts[0]), PHs[0]))
                 T = Ts[0]
-                t_ok = T[2][0][0] == 'sub' and T[2][0][1][0] == 'call' and T[2][0][1][1] == 'numpy.arange' \
-                    and len(T[2][0][1][2]) == 1 and 'shape' in show(T[2][0][1][2][0]) and T[2][1] == S('nphases') \
+                col = T[2][0]
+                # the sample index as a column: arange(n)[:, None] or arange(n).reshape(-1, 1)
+                if col[0] == 'meth' and col[1] == 'reshape' and col[3] in ((C(-1), C(1)), (('tuple', (C(-1), C(1))),)):
+                    col = ('sub', col[2], ('tuple', (('slice', NONE, NONE, NONE), NONE)))
+                t_ok = col[0] == 'sub' and col[1][0] == 'call' and col[1][1] == 'numpy.arange' \
+                    and len(col[1][2]) == 1 and 'shape' in show(col[1][2][0]) and T[2][1] == S('nphases') \
                     and dict(T[3]).get('axis') == C(1)
                 okm = (ap == want) and t_ok
         if not okm:
